@@ -65,6 +65,20 @@ MALFORMED = [
     lambda rng, a: fmt(a) + ' - ' + fmt(a + datetime.timedelta(days=rng.randint(0, 9))) + ' -',
     lambda rng, a: fmt(a) + ' - ' + f'{a.year:04d}/{a.month:02d}-{min(a.day + 1, 28):02d}',
     lambda rng, a: a.isoformat(),
+    # spellings outside the documented format that a general date parser would still read as some day
+    lambda rng, a: f'{a.year:04d}/{a.month:02d}',                                     # day missing
+    lambda rng, a: f'{a.year:04d}{a.month:02d}{a.day:02d}',                           # no separators
+    lambda rng, a: fmt(a) + ' 00:00',                                                 # time of day appended
+    lambda rng, a: fmt(a) + 'T12',
+    lambda rng, a: fmt(a) + '.',
+    lambda rng, a: f'{a.year % 100:02d}/{a.month:02d}/{a.day:02d}',                   # two-digit year
+    lambda rng, a: '0' + fmt(a),
+    lambda rng, a: fmt(a) + rng.choice(['x', '5', ' ' + fmt(a), '/01']),              # trailing garbage, stray digit, dash forgotten
+    lambda rng, a: rng.choice(['x', '+', '~']) + fmt(a),
+    lambda rng, a: f'{a.year:04d}/{a.month:02d}/{rng.choice([32, 40, 99])}',
+    lambda rng, a: fmt(a) + ' - ' + f'{a.year + 1:04d}/{a.month:02d}/32',
+    lambda rng, a: fmt(a) + ' - ' + fmt(a + datetime.timedelta(days=3)) + ' ' + fmt(a + datetime.timedelta(days=9)),
+    lambda rng, a: f'{a.year:04d}/ {a.month % 10}/ {a.day % 10 or 1}',
 ]
 
 
@@ -156,7 +170,7 @@ def run(out, tier, model_ok=True):
     key = (tuple(c['entries']),) if (len(c['entries']) >= 2 or c['malformed'] is not None) else None
     out.count(key)
   out.rule = ('generated lists of day / range strings (YYYY/MM/DD, years 1700-2200, month/leap/century boundaries, '
-              'overlaps, duplicates, shuffled, 5 separator spellings) and a malformed stream (15 kinds); '
+              'overlaps, duplicates, shuffled, 5 separator spellings) and a malformed stream (28 kinds, incl. spellings outside the documented format that a general date parser accepts); '
               'non-trivial = at least two entries or a malformed entry; distinct by entry list')
   out.extra.update({'well_formed_cases': n_ok, 'malformed_cases': n_bad, 'cases_with_overlap': overl,
                     'malformed_kinds': len(MALFORMED)})
